@@ -13,7 +13,7 @@ LEVEL = "exploration"
 RULE = ("Contracts on model.rating(mu, sigma, name), create_rating([mu, sigma], name) and copy.deepcopy (of a rating, of "
         "nested team lists, of a list containing the same rating twice): values exactly as given (0, 0.0, -0.0, negatives, "
         "denormals, huge are values, defaults only for omitted arguments), ids unique, deepcopy preserves mu/sigma/name/id "
-        "in a distinct object. History monitor: two leagues from one seed, A keeps its objects, B after EVERY game "
+        "in a distinct object; ids also unique when the global random module is re-seeded between constructions and when ratings are constructed on both sides of an os.fork(). History monitor: two leagues from one seed, A keeps its objects, B after EVERY game "
         "serialises each player to (mu, sigma) through float.hex / repr round trips and rebuilds through create_rating or "
         "model.rating (alternating); all returned ratings and the three predictions made before each game are compared "
         "bit for bit. Non-trivial: a constructor call with a falsy value, or a league step after >=1 restore; distinct by "
@@ -30,13 +30,14 @@ NAMES = [None, "bob", "Zoë", "名前", "a b", "0", "None", "x" * 40]
 def floors(tier):
     q = tier == "quick"
     return {"ctor/rating": 60000 if q else 6000000, "ctor/create_rating": 25000 if q else 2400000,
-            "deepcopy": 25000 if q else 2400000, "deepcopy/fresh": 10000 if q else 1200000, "league/step": 12000 if q else 1500000, "ctor/falsy": 20000 if q else 1800000}
+            "deepcopy": 25000 if q else 2400000, "deepcopy/fresh": 10000 if q else 1200000, "league/step": 12000 if q else 1500000, "ctor/falsy": 20000 if q else 1800000, "ctor/id-unique-across-fork": 1000 if q else 100000}
 
 
 def generate(ctx):
     n = ctx.budget(120000, 12000000)
     rng = ctx.rng
     per = 40
+    nctor = 0
     for _ in range(max(1, n // per)):
         items = []
         for _ in range(per):
@@ -44,8 +45,10 @@ def generate(ctx):
             sg = rng.choice(POOL) if rng.random() < 0.7 else rng.uniform(0, 30)
             how = rng.choice(["rating", "rating_kw", "rating_mu_only", "rating_sigma_only", "rating_none", "create", "create_named"])
             items.append([how, mu, sg, rng.choice(NAMES)])
-        yield "ctor", dict(model=rng.choice(MODEL_NAMES), cfg=dict(mu=rng.choice([25.0, 0.0, -3.0, 7]), sigma=rng.choice([25 / 3, 1.0, 0.5])),
-                           items=items)
+        nctor += 1
+        yield "ctor", dict(model=MODEL_NAMES[(nctor // 16 + ctx.shard) % 5] if nctor % 16 == 0 else rng.choice(MODEL_NAMES),
+                           cfg=dict(mu=rng.choice([25.0, 0.0, -3.0, 7]), sigma=rng.choice([25 / 3, 1.0, 0.5])),
+                           items=items, fork=(nctor % 16 == 0))
     combos = [(m, mode) for m in MODEL_NAMES for mode in ("skill", "random", "adversarial")]
     G = 1000 if ctx.tier == "quick" else 20000
     for rep in range(1 if ctx.tier == "quick" else 7):
@@ -129,6 +132,54 @@ def probe_ctor(ctx, payload):
                 seen[r.id] = (rnd, how)
     finally:
         _random.setstate(st)
+    # ... and whatever PROCESS constructs the rating: after os.fork() (multiprocessing's fork start method, pre-forking
+    # servers) parent and children continue from the same memory image, so an id scheme built on state taken at import
+    # time (a per-process prefix + counter, a seeded generator) hands the same ids out on both sides.  Every 16th batch.
+    if payload.get("fork"):
+        import os
+
+        pre = [model.rating(1.0, 1.0).id for _ in range(3)]
+        pipes = []
+        for child in range(3):
+            rfd, wfd = os.pipe()
+            pid = os.fork()
+            if pid == 0:  # child: construct, report the ids, leave without running any clean-up of the parent's state
+                code = 0
+                try:
+                    os.close(rfd)
+                    mine = [(model.rating(2.0, 1.0) if i % 2 else model.create_rating([2.0, 1.0])).id for i in range(8)]
+                    os.write(wfd, ("\n".join(map(str, mine))).encode())
+                    os.close(wfd)
+                except BaseException:  # noqa: BLE001
+                    code = 1
+                os._exit(code)
+            os.close(wfd)
+            pipes.append((pid, rfd))
+        mine = [(model.rating(2.0, 1.0) if i % 2 else model.create_rating([2.0, 1.0])).id for i in range(8)]
+        groups = {"parent": mine}
+        for pid, rfd in pipes:
+            data = b""
+            while True:
+                chunk = os.read(rfd, 65536)
+                if not chunk:
+                    break
+                data += chunk
+            os.close(rfd)
+            _, status = os.waitpid(pid, 0)
+            if status != 0 or not data:
+                ctx.skip("fork-child-failed")
+                continue
+            groups[f"child{pid}"] = data.decode().split("\n")
+        ctx.ev("ctor/id-unique-across-fork", sum(len(v) for v in groups.values()))
+        allids = {}
+        for who, lst in groups.items():
+            for x in lst:
+                if x in allids or x in pre or x in ids:
+                    ctx.violation("ctor/id-unique-across-fork", "ctor", payload,
+                                  dict(id=x, constructed_in=who, also_constructed_in=allids.get(x, "the parent before the fork")),
+                                  model_name, "fork")
+                    break
+                allids[x] = who
     # deepcopy of FRESH objects, taken before the monitor (or anything else) has read any attribute of the original:
     # a lazily initialised field must still be preserved by the copy
     for how, mu, sg, name in payload["items"][:6]:
